@@ -430,7 +430,7 @@ def jobs_for(prop, tier):
 
 def _jobs_for(prop, tier):
     if prop == 'C01':
-        return jobs_c01(tier) + jobs_carry(tier) + jobs_numpy_getitem(tier) + jobs_option_getitem(tier) + jobs_ellipsis(tier) + jobs_missing(tier) + jobs_advanced(tier) + jobs_getitem_entry(tier)
+        return jobs_c01(tier) + jobs_carry(tier) + jobs_numpy_getitem(tier) + jobs_option_getitem(tier) + jobs_ellipsis(tier) + jobs_missing(tier) + jobs_advanced(tier) + jobs_getitem_entry(tier) + jobs_union_getitem_advanced(tier)
     if prop == 'C05':
         return jobs_c05(tier) + [j for j in jobs_option_below(tier) if j[1][3] in ('num', 'localindex')] + jobs_flatten(tier) + jobs_axis0(tier, 'localindex') + jobs_record_below(tier, ('num', 'localindex')) + jobs_axis_through_record(tier, ('num', 'localindex')) + [(h_union_flatten, (), 1800), (h_union_flatten_mixed, (False,), 1800), (h_union_flatten_mixed, (True,), 1800)]
     if prop == 'C09':
@@ -6000,3 +6000,95 @@ def h_numpy_astype(shape, to='int32'):
 def jobs_numpy_astype(tier):
     q = [(3,), (2, 2), (3, 2)] if tier == 'quick' else [(0,), (3,), (2, 2), (3, 2), (1, 3), (2, 1, 2), (2, 0), (0, 2)]
     return [(h_numpy_astype, (s_,), 1800) for s_ in q] + ([(h_numpy_astype, ((2, 2), 'int8'), 1800)] if tier != 'quick' else [])
+
+
+# ------------------------------------------------------------------------------------------------ C01: a union between two index arrays
+@guard
+def h_union_getitem_advanced(tags):
+    """UnionArray8_64::getitem_next(index array, advanced) - the second of two index arrays arriving at a union: every content is handed the
+    same item together with the pairing of *its own* entries (in their order in the union), and the answers go back to the positions of those
+    entries"""
+    tags = tuple(tags)
+    n = len(tags)
+    nc = NodeCtx(['UNI', 'IA', 'IDX', 'CNT', 'UTL', 'KD', 'IDS', 'EA', 'SLC'], [], unwind=max(14, 4 * n + 12))
+    BASE = 1 << 32
+    kk = z3.BitVec('k!', 64)
+    lb = nc.m.bv('lencontentB')
+    nc.m.assume(nc.lencontent >= 1, nc.lencontent <= 2 ** 20, lb >= 1, lb <= 2 ** 20)
+    pb = nc.new_content_in(nc.m.mem, 'content_B', lb, z3.Lambda([kk], kk + BASE), const=True)
+    F = z3.Function('F_getitem', z3.BitVecSort(64), z3.BitVecSort(64))
+    seen = []
+
+    def s_getitem_next(eng, fr, ins, st, name, argv):
+        sret, selfp, head = argv[0], argv[1], argv[2]
+        nm, info = nc.content_info(selfp, st, eng)
+        try:            # read at the time of the call: the buffer object of the loop-local index is reused for the next content
+            got_ = nc.index_terms(st.mem, argv[4], 'advanced handed on')[0]
+        except (Unsupported, KeyError):
+            got_ = None
+        seen.append(dict(pc=st.pc, info=info, got=got_))
+        nc._ret(st, sret, nc.fresh_content(eng, st, info['length'], z3.Lambda([kk], F(z3.Select(info['atoms'], kk))), derived='getitem'))
+        return None
+    nc.m.eng.stubs['vf$slot%d' % nc.slot('12getitem_nextERKSt10shared_ptrINS_9SliceItemEERKNS_5SliceERKNS_7IndexOfIlEE')] = s_getitem_next
+    nc.m.eng.stubs['vf$slot%d' % nc.slot('9mergeableERKSt10shared_ptr')] = lambda eng, fr, ins, st, name, argv: z3.BitVecVal(0, 1)
+    nc.m.eng.stubs.update(string_stubs(nc))
+    this, idx = build_union8_64(nc, tags, [nc.content0, pb], 'node', [nc.lencontent, lb])
+    tail, _adv = empty_tail_and_advanced(nc)
+    item = _slice_item(nc, 0, 'array1')
+    ad = nc.m.array('advdata', ('i', 64), max(1, n), const=True)
+    a_ = z3.Array('advdata', z3.BitVecSort(64), z3.BitVecSort(64))
+    advv = [z3.Select(a_, BV(i)) for i in range(n)]
+    for v in advv:
+        nc.m.assume(v >= 0, v < 2)
+    cells_ = {}
+    nc.index_cells(cells_, 0, ad, BV(0), BV(n))
+    cells_[48] = (BV(0, 8), 1)
+    adv = nc.m.record('advanced_pairing', cells_, const=True)
+    head = nc.m.record('headptr', {0: (item, 8), 8: (NULL, 8)}, const=True)
+    nc.m.record('ret', {})
+    out = nc.m.call('_ZNK7awkward12UnionArrayOfIalE12getitem_nextERKSt10shared_ptrINS_9SliceItemEERKNS_5SliceERKNS_7IndexOfIlEE', [Ptr('ret', 0), this, head, tail, adv])
+    obls = [('passing the item through does not raise', out.raised)]
+    for ob in seen:
+        info, pc = ob['info'], ob['pc']
+        # which content is this? by the family of its atoms (content B's atoms are >= BASE)
+        hl = nodeh.concrete(info['length'], 'length of the projected content', under=pc)
+        for c in (0, 1):
+            mine = [i for i, t in enumerate(tags) if t == c]
+            if hl != len(mine):
+                continue
+            isc = z3.And([(z3.Select(info['atoms'], BV(k)) >= BASE) == bool(c) for k in range(hl)] + [z3.BoolVal(True)])
+            got = ob['got']
+            if got is None or len(got) != len(mine):
+                obls.append(('content %d is handed one pairing position per entry of its own (%s handed on, %d entries)' % (c, '?' if got is None else len(got), len(mine)), z3.And(pc, isc)))
+            else:
+                for k, i in enumerate(mine):
+                    obls.append(('content %d: the pairing of its entry %d (entry %d of the union) is handed on with it' % (c, k, i), z3.And(pc, isc, got[k] != advv[i])))
+    want = [Elem(F(idx[i] + t * BASE)) for i, t in enumerate(tags)]
+    rcell = nc.m.cell('ret', 0)
+    for g, res in nodeh.decode_cases(nc, out.mem, rcell):
+        if res is None:
+            obls.append(('a result is returned', z3.And(g, z3.Not(out.raised))))
+        else:
+            obls += [(nm, z3.And(g, z3.Not(out.raised), c)) for nm, c in nodeh.compare_value(res, want)]
+
+    def replay(model, ent):
+        # contents: lists of two numbers / lists of two booleans; entry i of the union = the next list of its content; x[[0..n-1], cols]
+        na, nb = tags.count(0), tags.count(1)
+        A = 'i64 %s regular 2 0 ' % fullnative.ints(range(10, 10 + 2 * max(na, 1)))
+        B = 'bool %s regular 2 0 ' % fullnative.ints([k % 2 for k in range(2 * max(nb, 1))])
+        index, ca, cb, rows = [], 0, 0, []
+        for t in tags:
+            if t == 0:
+                index.append(ca); rows.append([10 + 2 * ca, 11 + 2 * ca]); ca += 1
+            else:
+                index.append(cb); rows.append([bool((2 * cb) % 2), bool((2 * cb + 1) % 2)]); cb += 1
+        cols = [i % 2 for i in range(n)]
+        prog = A + B + 'union8_64 %d %s %s 2 getitem 2 array %s array %s' % (n, ' '.join(map(str, tags)), ' '.join(map(str, index)), fullnative.ints(range(n)), fullnative.ints(cols))
+        return akrun_check(prog, [rows[i][cols[i]] for i in range(n)], 'union %s sliced [[0..n-1], %s]' % (rows, cols))
+    return mdischarge(nc.m, 'UnionArray8_64::getitem_next(index array, advanced) tags=%s' % (tags,), obls, [], replay=replay, prefer=[nc.lencontent <= 8, lb <= 8],
+                      extra=dict(bounds='%d entries, tags concrete (case split); index values and pairing symbolic; two opaque contents' % n))
+
+
+def jobs_union_getitem_advanced(tier):
+    q = [(0, 1, 0), (1, 0, 0, 1)] if tier == 'quick' else [(0, 1, 0), (1, 0, 0, 1), (0, 0), (1,), (0, 1), (1, 1, 0), (0, 1, 1, 0, 1)]
+    return [(h_union_getitem_advanced, (t,), 1800) for t in q]
